@@ -159,21 +159,21 @@ NOT_BUILT_REASON = "check not yet built in this snapshot (runtime-monitoring des
 EXTRA = {
     "C07": " Malformed frames include 1-3 stray octets behind the last TLV that messageLength covers.",
     "C03": " Master, slave and P2P ports driven through more than 66000 timer expirations of each kind (every originated sequence id wraps).",
-    "C01": " Full meshes (K4/K5) of boundary clocks with ports in random order; 40 % of the simulated networks run at 2^-1 / 2^-2 s announce intervals. Successions of 9-12 grandmasters on one segment (the resident clock must find each). For full meshes the structure after a fault is judged at the (16+4n)-interval bound and, where stepsRemoved is still counting up (observed despite the path-trace option), again 1200 intervals later; both are counted in the evidence.",
-    "C02": " 20 % of the runs without a second master make the slave a boundary clock whose second port (P2P) was slave of a worse clock first and keeps measuring its link delay while port 1 is slave of the master. All instances of a run share a domainNumber from {0, 1, 24, 127, 255}.",
+    "C01": " Full meshes (K4/K5) of boundary clocks with ports in random order; 40 % of the simulated networks run at 2^-1 / 2^-2 s announce intervals. Successions of 9-12 grandmasters on one segment (the resident clock must find each). For full meshes the structure after a fault is judged at the (16+4n)-interval bound and, where stepsRemoved is still counting up (observed despite the path-trace option), again 1200 intervals later; both are counted in the evidence. Quality-change faults also promote a single-port clock into clockClass 6 / 7 / 127 at run time (it becomes grandmaster or must leave the slave state and stay passive).",
+    "C02": " 20 % of the runs without a second master make the slave a boundary clock whose second port (P2P) was slave of a worse clock first and keeps measuring its link delay while port 1 is slave of the master. All instances of a run share a domainNumber from {0, 1, 24, 127, 255}. 45 % of the runs use a non-default KalmanConfiguration::steer_time (0.5, 0.75, 1.5, 3.25 s).",
     "C04": " Messages longer than 1024 octets of every type with a TLV boundary at and around octet 1024 followed by further TLVs, complete and cut short. The versionPTP pre-filter in front of the decoder is called on every input (totality); every 0/1/2-octet buffer is enumerated.",
     "C05": " Masters announcing only every 2nd / 3rd interval (two Announces still inside the four-interval window at the deciding run). A P2P port may be disabled by a peer-delay fault right before the deciding run (excluded from the election, its decision still carries the data-set update).",
     "C06": " The port may be disabled by a peer-delay fault for a span of the history (records keep ageing); a second port of a master's clock announces sparsely (records are per port identity). Bursts of 3-8 Announces per announcement, then silence.",
     "C09": " Transmit timestamps of Syncs sent while the port was master are reported after it became slave, with a Delay_Req of the same sequence id outstanding. Half of the foreign copies of Sync / Follow_Up / Delay_Resp come from the parent's own port identity in another domain / sdoId.",
-    "C10": " 30 % of the request frames carry 1-46 octets after messageLength (padding or noise).",
+    "C10": " 30 % of the request frames carry 1-46 octets after messageLength (padding or noise). 20 % of the Sync transmit timestamps are reported only after one to three later Syncs went out, in any order with theirs; each Sync must still get exactly its own Follow_Up.",
     "C11": " A slave-only instance that lost its parent and is then made master-capable: the first Announce of each port must carry the own data. A quarter of the cases have PTP 2.0 (minorVersionPTP 0) ports.",
     "C12": " Peers announcing PATH_TRACE TLVs of 0..121 entries; a panic inside a timer call the host made as requested counts as a stuck port; the best master may be attached to both ports of the node (passive port on a network that falls silent). Boundary clock with a persistently faulty P2P port and a healthy sibling that must become slave.",
     "C14": " Pdelay responses / follow-ups addressed to another port of the own clock with the sequence id of the running exchange; non-zero delay asymmetry on a third of the cases; Announces from a lower-numbered port of the own clock on healthy and faulty ports.",
     "C16": " Interval::seconds() bit-exact for every i8.",
-    "C17": " A quarter of the write-release scenarios run slave-only, the tagged parent announces from port numbers 1 / 0 / 65535, and a released state whose parentDS names the instance itself must carry stepsRemoved 0 and the own time properties. Run-time clock quality changes (classes 6, 7, 127, 128, 0) judged at their own write release.",
+    "C17": " A quarter of the write-release scenarios run slave-only, the tagged parent announces from port numbers 1 / 0 / 65535, and a released state whose parentDS names the instance itself must carry stepsRemoved 0 and the own time properties. Run-time clock quality changes (classes 6, 7, 127, 128, 0) judged at their own write release. With path trace on, every 11th step is a parent Announce whose PATH_TRACE names the instance: it is discarded as a whole, no data set may differ after it.",
     "C18": " 15 % of the sequences contain 2-60 consecutive advances (up to a week without an adjustment).",
     "C19": " Mixed E2E / P2P ports in every order; the daemon's own observer task (statime_linux::observer::spawn on a tokio runtime) must serve the state published last before each connection, with an uptime that does not predate it.",
-    "C20": " Observation peers that keep the connection open after writing the state, and complete states with negative / huge uptime values. Non-GET requests announcing a body that never arrives (orderly close).",
+    "C20": " Observation peers that keep the connection open after writing the state, and complete states with negative / huge uptime values. Non-GET requests announcing a body that never arrives (orderly close). The exporter is also started before the observation socket exists (no file / stale file): it must come up, answer 5xx, and serve 200 once the socket appears.",
 }
 
 def main():
